@@ -676,6 +676,11 @@ func writeEvidence(p *Prop, tier string, seed uint64, o *Options, a *Agg, known 
 	if len(a.Inconclusive) > 0 {
 		cov["inconclusive"] = a.Inconclusive
 	}
+	if p.Extra != nil {
+		for k, v := range p.Extra(a) {
+			cov[k] = v
+		}
+	}
 	ev := map[string]any{
 		"property_id": p.ID,
 		"tier":        tier,
